@@ -30,6 +30,9 @@ type CodecLog struct {
 	Plain  []byte
 	Closed bool
 	Frames int // extra bytes emitted because of how the input was chunked (brotli)
+	// Elided: plain bytes for which nothing was emitted (a long run of zero bytes under zstandard, brotli or bzip2
+	// compresses to next to nothing: ratios far beyond 1000:1, probed natively)
+	Elided int
 }
 
 var (
@@ -72,6 +75,18 @@ func (w *cmpWriter) write(p []byte) (int, error) {
 		w.log.Frames++
 		if _, err := w.dst.Write([]byte{Byte("compressed", "")}); err != nil {
 			return 0, err
+		}
+	}
+	if len(p) >= 64 && (w.log.Format == "zstd" || w.log.Format == "brotli" || w.log.Format == "bzip2") && IsConcrete(string(p)) {
+		zeros := true
+		for _, b := range p {
+			if b != 0 {
+				zeros = false
+			}
+		}
+		if zeros {
+			w.log.Elided += len(p)
+			return len(p), nil
 		}
 	}
 	ct := make([]byte, len(p))
@@ -167,7 +182,7 @@ func (r *cmpReader) start() error {
 		}
 	}
 	r.plain = l.Plain
-	r.ok = l.Closed && total == len(l.Plain)+l.Frames+4
+	r.ok = l.Closed && total == len(l.Plain)-l.Elided+l.Frames+4
 	return nil
 }
 
